@@ -19,13 +19,21 @@ META = {
         "pairs on the real code"
     ),
     "level_text": (
-        "C07_ingest_complete: for ALL line lists meeting a stated boolean guard (coordinate lines start in "
-        "column 1 and parse by columns, MODEL serials parse, pending residue non-empty at the 2nd MODEL, "
-        "blank-chain lettering inert, alias names injective per residue, equal identities only inside one "
-        "uninterrupted residue run, fewer than 62 TER... ) the source lines of the atoms of the model's "
-        "Biomolecule are a permutation of the independent column read cols_read. Blank / unknown-record / "
-        "CRLF / trailing-column invariance are unconditional equalities of the model. Four clauses are "
-        "refuted by witnesses that replay on /repo (known findings C07-F3..F6) and proved under their exact guards."
+        "Proved for ALL line lists (induction, no size bound), about the code WITH the C07-F3..F6 repairs. "
+        "C07_ingest_complete / C07_atom_fields: under the executable guard G1 (every ATOM/HETATM/MODEL line starts "
+        "in column 1 and is read by the column parser) + two DESIGN guards (G2 blank-chain lettering inert: no TER "
+        "or no blank chain on a non-water record; G5 no two alias names of one atom in a residue) the source lines "
+        "of the atoms of the model's Biomolecule are a permutation of the independent column read cols_read (first "
+        "model, first listed per chain/resSeq/iCode/name, wherever the records sit) and each atom carries its "
+        "line's serial, chain, resSeq, iCode and coordinate text. The former guards G3 (pending residue at the 2nd "
+        "MODEL), G4 (identities only inside one residue run) and the fused-serial guard are gone: "
+        "C07_later_models_ignored holds under G1+G2 and C07_drop_water_iff under G1 alone, for all line lists. "
+        "Blank-line, unknown-record, line-ending/trailing-blank and trailing-column invariance are unconditional "
+        "equalities of the model. STILL GUARDED, honestly: G2 is kept although the C07-F6 collision is repaired (its "
+        "old witness is now a passing regression case, C07_regressions) because the raw-column identity of cols_read "
+        "cannot express 'blank chain of a TER segment'; C07_blank_chain_segments_refuted / C07_alias_names_refuted "
+        "show G2/G5 cannot be dropped (behaviour by design). With blank chains + TER, and outside G1, behaviour is "
+        "explored by the segment-aware oracle and the correspondence, not proved."
     ),
     "level_note": (
         "Trusted: Coq kernel+vm_compute; the hand model (tied by exact comparison of exception class or "
@@ -43,12 +51,11 @@ THEOREMS = [
     "C07_unknown_lines_irrelevant",
     "C07_crlf_and_trailing",
     "C07_trailing_columns",
-    "C07_later_models_ignored_partial",
-    "C07_later_models_ignored_refuted",
-    "C07_drop_water_iff_partial",
-    "C07_drop_water_iff_refuted",
-    "C07_noncontiguous_refuted",
-    "C07_blank_chain_lettering_refuted",
+    "C07_later_models_ignored",
+    "C07_drop_water_iff",
+    "C07_regressions",
+    "C07_blank_chain_segments_refuted",
+    "C07_alias_names_refuted",
     "C07_nonvacuous",
 ]
 ALLOWED_AXIOMS = []
@@ -325,7 +332,7 @@ def gen_structured(rng, k):
     feats = set()
     nres = rng.choice([1, 2, 2, 3, 3, 4, 5])
     blank_chain_mode = rng.random() < 0.18
-    chains = [" "] if blank_chain_mode and rng.random() < 0.6 else rng.choice([["A"], ["A"], ["A", "B"], ["B", "A"], ["A", " "], ["a", "1", "Z"], ["Z", " ", "a"]])
+    chains = [" "] if blank_chain_mode and rng.random() < 0.6 else rng.choice([["A"], ["A"], ["A", "B"], ["B", "A"], ["A", " "], ["a", "1", "Z"], ["Z", " ", "a"], [" ", "A"], ["A", " ", "B"]])
     if " " in chains:
         feats.add("blank-chain")
     serial = rng.choice([1, 1, 1, 9995, 99990, 5])
@@ -334,13 +341,25 @@ def gen_structured(rng, k):
     seq0 = rng.choice([1, 1, 10, -3, 0, 998, 9996, -12])
     if seq0 < 0:
         feats.add("negative-resseq")
+    # residue numbering: increasing; one number with insertion codes (12, 12A, 12B ...);
+    # or restarting in every chain (neighbouring residues differ in the chain only)
+    numbering = rng.choice(["inc", "inc", "inc", "icode-run", "restart-per-chain"])
+    if numbering != "inc":
+        feats.add("numbering:" + numbering)
+    per_chain = {}
     for i in range(nres):
         ch = chains[min(len(chains) - 1, i * len(chains) // nres)]
+        seq_i, ic_forced = seq0 + i, None
+        if numbering == "icode-run":
+            seq_i, ic_forced = seq0, ["", "A", "B", "C", "D"][i]
+        elif numbering == "restart-per-chain":
+            seq_i = seq0 + per_chain.get(ch, 0)
+            per_chain[ch] = per_chain.get(ch, 0) + 1
         if rng.random() < 0.25 and frs:
             fr = rng.choice(frs)[: rng.choice([1, 2, 3, 4])]
             lines = []
             for l in fr:
-                lines.append(l[:6] + f"{serial:>5}" + l[11:21] + ch + f"{seq0 + i:>4}" + l[26:])
+                lines.append(l[:6] + f"{serial:>5}" + l[11:21] + ch + f"{seq_i:>4}" + (l[26:] if ic_forced is None else (ic_forced or " ") + l[27:]))
                 serial += 1
             feats.add("real-fragment")
             residues.append(lines)
@@ -350,6 +369,8 @@ def gen_structured(rng, k):
             feats.add("water")
         names = names[: rng.choice([1, 2, 3, len(names), len(names)])]
         ic = rng.choice(["", "", "", "A", "B"])
+        if ic_forced is not None:
+            ic = ic_forced
         if ic:
             feats.add("icode")
         lines = []
@@ -360,7 +381,7 @@ def gen_structured(rng, k):
                 alts = rng.choice([["A", "B"], ["A", "B", "C"], ["", "B"], ["A"], ["B", "A"]])
                 feats.add("altloc")
             for al in alts:
-                lines.append(fmt_atom(rec, serial, n, al, resn, ch.strip(), seq0 + i, ic, coord(rng), coord(rng), coord(rng), tail=rng.random() < 0.8))
+                lines.append(fmt_atom(rec, serial, n, al, resn, ch.strip(), seq_i, ic, coord(rng), coord(rng), coord(rng), tail=rng.random() < 0.8))
                 serial += 1
         if altmode > 0.9 and len(lines) > 1:
             # alt-loc block listed after the residue (conformer B after all of A)
@@ -597,15 +618,29 @@ def raw_lines(text):
     return [l.rstrip("\r") for l in text.split("\n")]
 
 
+LETTERS = "ABCDEFGHIJKLMNOPQRSTUVWXYZabcdefghijklmnopqrstuvwxyz0123456789"
+
+
 def slicer(text):
     """First model (lines in front of the second MODEL record), ATOM/HETATM by
-    fixed columns, one per (chain, resSeq, iCode, name), first listed.
+    fixed columns, one per (chain, resSeq, iCode, name), first listed.  A blank
+    chain identifier of a non-water record in a file with TER records denotes
+    the chain of its TER-delimited segment (two blank-chain records in different
+    segments are different identities).
     Returns (kept, all_first_model, later) lists of dicts, or None when a
     coordinate line cannot be read by columns (outside the oracle's domain)."""
     kept, seen, first, later = [], {}, [], []
     nmodel = 0
-    for n, l in enumerate(raw_lines(text)):
+    lines = raw_lines(text)
+    nter = sum(1 for l in lines if l[0:6].strip() == "TER")
+    seg = 0
+    for n, l in enumerate(lines):
         rec = l[0:6].strip()
+        if l[:1].isspace() and l.strip()[0:6].strip() in ("ATOM", "HETATM", "MODEL"):
+            return None  # the code strips the line first: columns are not the file's columns
+        if rec == "TER":
+            seg += 1
+            continue
         if rec == "MODEL":
             nmodel += 1
             continue
@@ -631,11 +666,15 @@ def slicer(text):
             return None
         if len(l.rstrip()) < 54 or l[:1].isspace():
             return None
+        lettered = nter > 0 and d["chain"] == "" and d["resn"] not in ("HOH", "WAT")
+        d["segchain"] = ("", seg) if lettered else d["chain"]
+        d["codechain"] = (LETTERS[seg] if seg < len(LETTERS) else None) if lettered else d["chain"]
         if nmodel >= 2:
             later.append(d)
             continue
         first.append(d)
-        key = (d["chain"], d["seq"], d["ic"], d["name"])
+        key = (d["segchain"], d["seq"], d["ic"], d["name"])
+        d["key"] = key
         if key in seen:
             continue
         seen[key] = d
@@ -653,43 +692,64 @@ def structure_events(text):
     return ev
 
 
+def second_model_pending_empty(ev):
+    """Is the pending residue of Biomolecule.__init__ empty when the second
+    MODEL record arrives?  (pending: set by a coordinate record, emptied by END)"""
+    nm, pending = 0, False
+    for rec, _n, _l in ev:
+        if rec in ("ATOM", "HETATM"):
+            pending = True
+        elif rec == "END":
+            pending = False
+        elif rec == "MODEL":
+            nm += 1
+            if nm >= 2:
+                return not pending
+    return False
+
+
+# the mechanisms of the repaired findings C07-F3, F5, F6 (named so that a regression is reported under its own name)
+KNOWN_CONDITIONS = ("MODEL-with-empty-pending-residue", "same-identity-in-separate-residue-runs", "blank-chain-lettering-collision")
+
+
 def diagnose(text, kept, first, later, got_serials):
     """Deterministic classification of a mismatch between the slicer and the
-    real Biomolecule into a signature."""
+    real Biomolecule into a signature.  Every discrepant record is classified on
+    its own; a discrepancy that none of the known mechanisms explains decides the
+    signature (so a new defect is never reported under a known one)."""
     exp = {d["serial"] for d in kept}
     extra = got_serials - exp
     missing = exp - got_serials
     ev = structure_events(text)
+    end_lines = [n for rec, n, _ in ev if rec == "END"]
     later_serials = {d["serial"] for d in later}
-    if extra & later_serials:
-        # a later model leaked: was the pending residue empty at a MODEL record number >= 2 ?
-        nm, pending, empty_at_model = 0, False, False
-        for rec, n, l in ev:
-            if rec in ("ATOM", "HETATM"):
-                pending = True
-            elif rec == "END":
-                pending = False
-            elif rec == "MODEL":
-                nm += 1
-                if nm >= 2 and not pending:
-                    empty_at_model = True
-        cond = "MODEL-with-empty-pending-residue" if empty_at_model else "later-model-ingested-other"
-        return {"site": "Biomolecule.__init__", "condition": cond}
-    if extra:
-        # duplicates of an identity kept twice: same identity in two different runs ?
-        byser = {d["serial"]: d for d in first}
-        if all(s in byser for s in extra):
-            return {"site": "Biomolecule.__init__", "condition": "same-identity-in-separate-residue-runs"}
-        return {"site": "Biomolecule.__init__", "condition": "atom-from-nowhere"}
-    if missing:
-        has_ter = any(rec == "TER" for rec, _, _ in ev)
-        blank = any(d["chain"] == "" and d["resn"] not in ("HOH", "WAT") for d in first)
-        explicit = any(d["chain"] != "" for d in first)
-        if has_ter and blank:
-            return {"site": "Biomolecule.__init__", "condition": "blank-chain-lettering-collision" if explicit else "blank-chain-lettering-loss"}
-        first_missing = min(missing)
-        return {"site": "pdb.read_pdb/Biomolecule.__init__", "condition": "record-lost", "detail": "first" if first_missing == min(exp) else "later"}
-    return {"site": "Biomolecule.__init__", "condition": "field-mismatch"}
+    byser = {d["serial"]: d for d in first}
+    keptby = {d["key"]: d for d in kept}
+    conds = []
+    for s in sorted(extra):
+        if s in later_serials:
+            conds.append("MODEL-with-empty-pending-residue" if second_model_pending_empty(ev) else "later-model-ingested")
+        elif s in byser:
+            d = byser[s]
+            k = keptby[d["key"]]
+            rk = (d["segchain"], d["seq"], d["ic"])
+            interrupted = any(k["line"] < e["line"] < d["line"] and (e["segchain"], e["seq"], e["ic"]) != rk for e in first) or any(
+                k["line"] < n < d["line"] for n in end_lines
+            )
+            conds.append("same-identity-in-separate-residue-runs" if interrupted else "duplicate-identity-kept-within-one-run")
+        else:
+            conds.append("atom-from-nowhere")
+    for s in sorted(missing):
+        d = byser[s]
+        ck = (d["codechain"], d["seq"], d["ic"], d["name"])
+        collide = any(e["line"] < d["line"] and e["key"] != d["key"] and (e["codechain"], e["seq"], e["ic"], e["name"]) == ck for e in first)
+        conds.append("blank-chain-lettering-collision" if collide else "record-lost")
+    if not conds:
+        return {"site": "Biomolecule.__init__", "condition": "field-mismatch"}
+    unknown = [c for c in conds if c not in KNOWN_CONDITIONS]
+    cond = unknown[0] if unknown else conds[0]
+    site = "pdb.read_pdb/Biomolecule.__init__" if cond == "record-lost" else "Biomolecule.__init__"
+    return {"site": site, "condition": cond}
 
 
 def alias_ok(resn_tab, resn, raw, got):
@@ -727,7 +787,7 @@ def oracle_case(ctx, case, tab):
         ctx.count("oracle:outside-domain(alias names of one atom listed together)")
         return False
     nter = sum(1 for rec, _, _ in ev if rec == "TER")
-    if nter >= 62 and any(d["chain"] == "" for d in first):
+    if nter + len({d["chain"] for d in first + later if d["chain"]}) >= 62 and any(d["chain"] == "" for d in first + later):
         ctx.count("oracle:outside-domain(>61 TER with blank chains)")
         return False
     res = impl_ingest(text, False)
@@ -745,14 +805,17 @@ def oracle_case(ctx, case, tab):
     ok = sorted(got_serials) == sorted(exp)
     fields_ok = True
     if ok:
-        lettering = nter > 0
         for a in got:
             d = exp[a[1]]
             if (a[6], a[7], a[8], a[9], a[10]) != (d["seq"], d["ic"], fnum(d["x"]), fnum(d["y"]), fnum(d["z"])):
                 fields_ok = False
             if not alias_ok(tab, a[4], d["name"], a[2]):
                 fields_ok = False
-            if a[5] != d["chain"] and not (d["chain"] == "" and lettering and len(a[5]) == 1 and a[5].isalnum()):
+            if d["segchain"] != d["chain"]:
+                # a lettered blank chain: which letter is not the property's business
+                if not (len(a[5]) == 1 and a[5].isalnum()):
+                    fields_ok = False
+            elif a[5] != d["chain"]:
                 fields_ok = False
     if ok and fields_ok:
         return True
@@ -785,6 +848,11 @@ def metamorphic(ctx, case, rng):
     lines = text.split("\n")
     trail = lines[-1]
     lines = lines[:-1]
+    if trail.strip():
+        # no final newline: the last line is a line like the others (the variants
+        # end it with a newline, which C07_crlf_and_trailing shows immaterial)
+        lines.append(trail)
+        trail = ""
     if not lines:
         return
     ev = structure_events(text)
@@ -839,6 +907,9 @@ def metamorphic(ctx, case, rng):
         sig = {"site": "Biomolecule.__init__", "condition": "trailing-END-sensitive"}
         if o[0] == "EXC" and o[1] in ("IndexError", "AttributeError"):
             sig = {"site": "Biomolecule.__init__", "condition": "END-with-empty-residue"}
+        elif base[0] == "OK" and o[0] == "OK" and second_model_pending_empty(ev):
+            # a later model is being ingested (regression of C07-F3); its last residue is flushed only by END
+            sig = {"site": "Biomolecule.__init__", "condition": "MODEL-with-empty-pending-residue"}
         fail("END-END", sig, v, o)
     v = "\n".join(("TER" if l[:6].strip() == "TER" else l) for l in lines) + "\n" + trail
     o = impl_ingest(v, False)
@@ -856,8 +927,10 @@ def metamorphic(ctx, case, rng):
             sig = {"site": "main.drop_water", "condition": "other"}
             if o1[0] == "OK":
                 left = [a for _, at in o1[1] for a in at if a[4] in ("HOH", "WAT")]
-                fused = {d["serial"] for d in sl[1] + sl[2] if d["tok0"] != d["rec"]}
-                if left and all(a[1] in fused for a in left):
+                fused = [l for l in wl if l.split()[0] not in ("ATOM", "HETATM")]
+                o3 = impl_ingest("\n".join([l for l in lines if l not in wl or l in fused] + [trail]), False)
+                if fused and same_atoms(o1, o3):
+                    # exactly the waters whose record name is fused to the serial survive (regression of C07-F4)
                     sig = {"site": "main.drop_water", "condition": "record_type-fused-with-serial"}
                 elif left:
                     sig = {"site": "main.drop_water", "condition": "water-survives"}
@@ -1002,6 +1075,22 @@ def run(ctx):
         ctx.count("stream:" + c["stream"])
 
     corr_broken = False
+    # the Coq witnesses / regression examples (Proofs/C07Witness.v) replayed on the real code:
+    # the serial lists the theorems state must be what /repo produces on the same text
+    for c in cases[:ncorpus]:
+        if "expect_serials" in c:
+            r = impl_ingest(c["text"], c["dropw"])
+            got = [a[1] for _, at in r[1] for a in at] if r[0] == "OK" else [r[1]]
+            ctx.cov["correspondence_cases"] += 1
+            if got != c["expect_serials"]:
+                ctx.cov["correspondence_disagreements"] += 1
+                corr_broken = True
+                ctx.broke(
+                    "correspondence-broken",
+                    "Coq witness/regression example (Proofs/C07Witness.v) vs pdb.read_pdb + Biomolecule.__init__: " + c["feats"][0],
+                    f"theorem states serials {c['expect_serials']}, /repo gives {got}",
+                    {"text": c["text"], "dropw": c["dropw"], "feats": c["feats"], "mode": "correspondence"},
+                )
     terms = []
     for c in cases:
         terms += model_terms(c)
@@ -1057,7 +1146,7 @@ def run(ctx):
         cm = [c for c in cases if c["stream"] == "malformed"]
         if cm:
             ctx.sample({"text": cm[0]["text"][:800], "feats": cm[0]["feats"], "impl": str(impl_ingest(cm[0]["text"], cm[0]["dropw"]))[:300]})
-    ctx.sample({"obligation": "C07_ingest_complete: guard lines = true -> exists rs, ingest fok tab false lines = Done rs /\\ Permutation (map a_src (all_atoms rs)) (map strip (cols_read lines))"})
+    ctx.sample({"obligation": "C07_ingest_complete (guard = G1 + design guards G2, G5): guard lines = true -> exists rs, ingest fok tab false lines = Done rs /\\ Permutation (map a_src (all_atoms rs)) (map strip (cols_read lines))"})
     ctx.trusted += [
         "oracle: float() success as a predicate (Section variable fok in the theorems; the executable instance py_float_ok is compared with float() on every run)",
         "generated from /repo on every run: definition table (residue name -> class kind, altnames), LINE_PARSERS keys, water names, RNA_MAPPING",
